@@ -275,8 +275,11 @@ class Polygon(Shape2D):
 
     @area.setter
     def area(self, value):
-        scale = np.sqrt(value / self.area)
-        self._rescale(scale)
+        if value > 0:
+            scale = np.sqrt(value / self.area)
+            self._rescale(scale)
+        else:
+            raise ValueError("Area must be greater than zero.")
 
     @property
     def planar_moments_inertia(self):
@@ -556,7 +559,10 @@ class Polygon(Shape2D):
 
     @circumcircle_radius.setter
     def circumcircle_radius(self, value):
-        self._rescale(value / self.circumcircle_radius)
+        if value > 0:
+            self._rescale(value / self.circumcircle_radius)
+        else:
+            raise ValueError("Circumcircle radius must be greater than zero.")
 
     @property
     def incircle(self):
@@ -619,7 +625,10 @@ class Polygon(Shape2D):
 
     @incircle_radius.setter
     def incircle_radius(self, value):
-        self._rescale(value / self.incircle_radius)
+        if value > 0:
+            self._rescale(value / self.incircle_radius)
+        else:
+            raise ValueError("Incircle radius must be greater than zero.")
 
     def compute_form_factor_amplitude(self, q, density=1.0):  # noqa: D102
         """Calculate the form factor intensity.
